@@ -3,7 +3,9 @@ import SignaloModel.Model.Classify
 /-!
 The sample type the driver instantiates every generic model at: exact rationals, plus `nan`
 (incomparable with everything, as IEEE NaN; the harness feeds `f64::NAN`), plus `err`
-(the value of a division by zero: the harness's exact rational type panics there).
+(the value of a division by zero: the harness's exact rational type panics there), plus `nz` (IEEE negative zero: it
+compares and computes as zero, but code that merely stores or selects samples hands it on as the different value it is;
+the harness feeds it only to such code).
 
 Glue only: nothing in the theorems depends on this file; the theorems are about the generic models
 for every type with the stated algebraic / order laws.
@@ -14,11 +16,18 @@ inductive V where
   | q (r : Rat)
   | nan
   | err
+  | nz
 deriving Repr, Inhabited
 
 namespace V
 
-def lift2 (f : Rat → Rat → Rat) : V → V → V
+/-- negative zero as the number it is -/
+def norm : V → V
+  | nz => q 0
+  | v => v
+
+def lift2 (f : Rat → Rat → Rat) (a b : V) : V :=
+  match a.norm, b.norm with
   | q a, q b => q (f a b)
   | err, _ => err
   | _, err => err
@@ -27,17 +36,18 @@ def lift2 (f : Rat → Rat → Rat) : V → V → V
 instance : Add V := ⟨lift2 (· + ·)⟩
 instance : Sub V := ⟨lift2 (· - ·)⟩
 instance : Mul V := ⟨lift2 (· * ·)⟩
-instance : Div V := ⟨fun a b => match a, b with
+instance : Div V := ⟨fun a b => match a.norm, b.norm with
   | q x, q y => if y = 0 then err else q (x / y)
   | err, _ => err
   | _, err => err
   | _, _ => nan⟩
-instance : Neg V := ⟨fun a => match a with | q x => q (-x) | v => v⟩
+instance : Neg V := ⟨fun a => match a.norm with | q x => q (-x) | v => v⟩
 instance : OfNat V 0 := ⟨q 0⟩
 instance : OfNat V 1 := ⟨q 1⟩
 
 /-- all comparisons involving `nan`/`err` are false -/
-def cmpB (f : Rat → Rat → Bool) : V → V → Bool
+def cmpB (f : Rat → Rat → Bool) (a b : V) : Bool :=
+  match a.norm, b.norm with
   | q a, q b => f a b
   | _, _ => false
 
@@ -53,7 +63,7 @@ instance : Median.POrd V :=
 instance : Classify.Cmp V where
   ge := cmpB (fun x y => decide (x ≥ y))
   gt := cmpB (fun x y => decide (x > y))
-  pcmp a b := match a, b with
+  pcmp a b := match a.norm, b.norm with
     | q x, q y => some (if x < y then .lt else if x == y then .eq else .gt)
     | _, _ => none
 
@@ -72,6 +82,7 @@ def render : V → String
   | q r => showRat r
   | nan => "nan"
   | err => "PANIC"
+  | nz => "-0"
 
 def parseRat (s : String) : Option Rat :=
   match s.splitOn "/" with
@@ -85,6 +96,7 @@ def parseRat (s : String) : Option Rat :=
 def parse (s : String) : Option V :=
   if s == "nan" then some nan
   else if s == "PANIC" then some err
+  else if s == "-0" then some nz
   else (parseRat s).map q
 
 def renderList (l : List V) : String := " ".intercalate (l.map render)
@@ -93,6 +105,7 @@ def sameB : V → V → Bool
   | q a, q b => a == b
   | nan, nan => true
   | err, err => true
+  | nz, nz => true
   | _, _ => false
 
 end V
